@@ -145,6 +145,8 @@ def alt_accepts(alt: dict, op: dict, isa: Isa) -> bool:
     if kind == 'register':
         return k == 'reg' and op['r'].lower() == alt['register'].lower() and _same_deco(alt, op)
     if kind == 'indirect_register':
+        if k == 'indidx' and op['r'].lower() == alt['register'].lower() and 'offset' not in alt:
+            raise Unspecified('indexed form offered to an indirect register configured without an offset')
         if not (k == 'indreg' and op['r'].lower() == alt['register'].lower() and _same_deco(alt, op)):
             return False
         if op.get('off') is not None and 'offset' not in alt:
@@ -476,3 +478,7 @@ def encode_instruction(isa: Isa, mnemonic: str, ops: list, resolve, address: int
     _, variant, (matched, ra, rc) = select_statement(isa, mnemonic, ops)
     ctx = Ctx(isa, resolve, address, zones if zones is not None else isa.zones)
     return encode_matched(variant, matched, ra, rc, ctx, isa.endian)
+
+
+def selected_variant_index(isa: Isa, mnemonic: str, ops: list) -> int:
+    return select_statement(isa, mnemonic, ops)[0]
